@@ -87,6 +87,29 @@ def main():
                                 s.fail("passthrough:" + key, "path changed without an audio directory")
                             out.unlink()
                             out2.unlink()
+        # ---- relative audio directories (as given by a caller working from the project root): stored and re-joined as given,
+        #      never made absolute behind the caller's back
+        for A, B in ((Path("audio A"), Path("other")), (Path("rel/dir"), Path("else/where/deep"))):
+            for name in NAMES[:3]:
+                for as_str in (False, True):
+                    rec = data.Recording(path=A / name, duration=1, channels=1, samplerate=8000)
+                    for tname, obj in collections(rec).items():
+                        key = f"{tname}:relative={A}:{name}:str={as_str}"
+                        s.case(None, key, sample=dict(type=tname, audio_dir=str(A), path=str(A / name)))
+                        out = tmp / f"{uuid.uuid4().hex}.json"
+                        try:
+                            io.save(obj, out, audio_dir=str(A) if as_str else A)
+                        except Exception as e:
+                            s.fail("save_raises_relative:" + key, f"save with the relative audio directory {str(A)!r} raised {type(e).__name__}: {str(e)[:120]} although the recording is inside it")
+                            continue
+                        stored = [r["path"] for r in json.loads(out.read_text())["data"]["recordings"]]
+                        if stored != [str(Path(name))]:
+                            s.fail("stored_path_relative:" + key, f"document stores {stored}, expected {[name]}")
+                        for ld in (B, str(B)):
+                            got = [r.path for r in recordings_of(io.load(out, audio_dir=ld))]
+                            if got != [B / name]:
+                                s.fail("loaded_path_relative:" + key, f"loaded under the relative directory {str(B)!r}: {got}, expected {[B / name]}")
+                        out.unlink()
     finally:
         for f in tmp.glob("*"):
             f.unlink()
